@@ -9,6 +9,9 @@ package config
 
 import (
 	"fmt"
+	"os"
+	"path/filepath"
+	"strconv"
 	"strings"
 	"testing"
 
@@ -99,6 +102,127 @@ func TestVerifC10(t *testing.T) {
 			one(c, f[10] == "1", tdb, f[12] == "1", "corpus")
 		}
 	}
+	// ---- the same through the YAML loader (InitSyncerConfig = yaml.Unmarshal + fix) for
+	// configurations that YAML can spell (printable ASCII), and through the flag setters
+	printable := func(l []string) bool {
+		for _, x := range l {
+			for i := 0; i < len(x); i++ {
+				if x[i] < 0x20 || x[i] > 0x7e {
+					return false
+				}
+			}
+		}
+		return true
+	}
+	q := func(l []string) string {
+		p := make([]string, len(l))
+		for i, x := range l {
+			p[i] = strconv.Quote(x)
+		}
+		return "[" + strings.Join(p, ", ") + "]"
+	}
+	ints := func(l []int) string {
+		p := make([]string, len(l))
+		for i, x := range l {
+			p[i] = strconv.Itoa(x)
+		}
+		return "[" + strings.Join(p, ", ") + "]"
+	}
+	slots := func(l [][]uint16) string {
+		p := make([]string, len(l))
+		for i, e := range l {
+			q := make([]string, len(e))
+			for j, v := range e {
+				q[j] = strconv.Itoa(int(v))
+			}
+			p[i] = "[" + strings.Join(q, ", ") + "]"
+		}
+		return "[" + strings.Join(p, ", ") + "]"
+	}
+	dir := t.TempDir()
+	yamlOne := func(c vfc10.Cfg, cluster bool, tdb int, resume bool) {
+		c.CW = nil
+		if !printable(c.CB) || !printable(c.PW) || !printable(c.PB) {
+			s.Count("yaml_skipped_nonprintable")
+			return
+		}
+		typ := "standalone"
+		if cluster {
+			typ = "cluster"
+		}
+		y := "input:\n  redis:\n    addresses: [127.0.0.1:6379]\noutput:\n  redis:\n    addresses: [127.0.0.1:6380]\n    type: " + typ + "\n" +
+			"  replay:\n    resumeFromBreakPoint: " + strconv.FormatBool(resume) + "\n    targetDb: " + strconv.Itoa(tdb) + "\n  filter:\n"
+		if len(c.DB) > 0 {
+			y += "    dbBlacklist: " + ints(c.DB) + "\n"
+		}
+		if len(c.CB) > 0 {
+			y += "    commandBlacklist: " + q(c.CB) + "\n"
+		}
+		if len(c.PW)+len(c.PB) > 0 {
+			y += "    keyFilter:\n      prefixKeyWhitelist: " + q(c.PW) + "\n      prefixKeyBlacklist: " + q(c.PB) + "\n"
+		}
+		if len(c.SW)+len(c.SB) > 0 {
+			y += "    slotFilter:\n      keySlotWhitelist: " + slots(c.SW) + "\n      keySlotBlacklist: " + slots(c.SB) + "\n"
+		}
+		y += "channel:\n  type: memory\n"
+		path := filepath.Join(dir, "c10.yaml")
+		if err := os.WriteFile(path, []byte(y), 0o644); err != nil {
+			panic(err)
+		}
+		syncCfg = &SyncConfig{}
+		err := InitSyncerConfig(path)
+		b := func(x bool) string {
+			if x {
+				return "1"
+			}
+			return "0"
+		}
+		line := fmt.Sprintf("c10 fix O %s %s %d %s", c.Fields(), b(cluster), tdb, b(resume))
+		s.Count("yaml")
+		if err != nil {
+			s.Op(line, "err")
+			s.Count("yaml_err")
+			return
+		}
+		after := vfC10FromFilter(syncCfg.Output.Filter)
+		s.Op(line, "ok "+after.Fields())
+		if after.Fields() != c.Fields() {
+			s.Violate("config-yaml-changes-filter", fmt.Sprintf("the YAML loader + fix hand the output another filter than configured: configured %q, in effect %q", c.Fields(), after.Fields()),
+				map[string]interface{}{"op": line, "yaml": y, "cfg": c.Fields(), "after": after.Fields()})
+		} else {
+			s.Distinct("y:" + line)
+		}
+	}
+	// flag setters (the -cmd=rdb command line): Set(String-rendering) must give back the list
+	flagOne := func(c vfc10.Cfg) {
+		var si SliceInt
+		if len(c.DB) > 0 {
+			if err := si.Set(strings.Trim(strings.ReplaceAll(ints(c.DB), " ", ""), "[]")); err != nil || fmt.Sprint([]int(si)) != fmt.Sprint(c.DB) {
+				s.Violate("flag-dbBlacklist", fmt.Sprintf("SliceInt.Set(%v) = %v (%v)", c.DB, si, err), map[string]interface{}{"db": fmt.Sprint(c.DB)})
+			}
+			s.Count("flag_sliceint")
+		}
+		for _, l := range [][][]uint16{c.SW, c.SB} {
+			ok := len(l) > 0
+			for _, e := range l {
+				if len(e) == 0 {
+					ok = false // the flag syntax cannot spell an empty entry
+				}
+			}
+			if !ok {
+				continue
+			}
+			var d DoubleSliceUint16
+			in := strings.ReplaceAll(slots(l), " ", "")
+			in = in[1 : len(in)-1] // [a,b],[c]
+			err := d.Set(in)
+			if err != nil || fmt.Sprint([][]uint16(d)) != fmt.Sprint(l) {
+				s.Violate("flag-slotlist", fmt.Sprintf("DoubleSliceUint16.Set(%q) = %v (%v), want %v", in, d, err, l), map[string]interface{}{"flag": in})
+			}
+			s.Count("flag_slots")
+		}
+	}
+
 	n := vfutil.Scale(400, 20000)
 	for i := 0; i < n; i++ {
 		c := vfc10.GenCfg(r, "O")
@@ -106,6 +230,9 @@ func TestVerifC10(t *testing.T) {
 			c.DB = []int{r.Intn(16), r.Intn(16)}
 		}
 		tdb := vfutil.Pick(r, []int{-1, -1, -1, 0, 0, 3})
-		one(c, r.Bool(), tdb, r.Chance(1, 2), "gen")
+		cl, rs := r.Bool(), r.Chance(1, 2)
+		one(c, cl, tdb, rs, "gen")
+		yamlOne(c, cl, tdb, rs)
+		flagOne(c)
 	}
 }
